@@ -1266,6 +1266,9 @@ func checkC33(c *Ctx, r *Report) {
 					return
 				}
 				nSend++
+				if setsSame(f, sent) {
+					return // the sending function itself hands this very value to ClientState.Set
+				}
 				if p, ok := sent.(*ssa.Parameter); ok && p.Parent() == f {
 					idx := -1
 					for k, q := range f.Params {
